@@ -118,20 +118,23 @@ def readNpyRd (r : Rd) : Except IoErr (List Nat × List Nat) :=
                   | .error e => .error e
                   | .ok vals => if checkedSize d.shape = some vals.length then .ok (d.shape, vals) else .error .invalid
 
-/-- `read_scs` over a reader: `read_line`, then `read_to_string`. -/
+/-- `read_scs` over a reader: `Header::read` first (`read_line`, the line parsed — a bad header line is reported without reading
+    any further), then `read_to_string` and the values. -/
 def readTextRd (r : Rd) : Except IoErr (List Nat × List Nat) :=
   match r.readLine (r.data.length + 1) with
   | .error e => .error e
   | .ok (lineB, r) =>
-    match r.readToEnd (r.data.length + 1) with
-    | .error e => .error e
-    | .ok (restB, _) =>
-      if !allAscii (lineB ++ restB) then .error .invalid
-      else match parseTextHeader ((bytesToChars lineB).takeWhile (· ≠ '\n')) with
-        | none => .error .invalid
-        | some shape => match (splitWs (bytesToChars restB)).mapM parseF64 with
-          | none => .error .invalid
-          | some vals => if checkedSize shape = some vals.length then .ok (shape, vals) else .error .invalid
+    if !allAscii lineB then .error .invalid
+    else match parseTextHeader ((bytesToChars lineB).takeWhile (· ≠ '\n')) with
+      | none => .error .invalid
+      | some shape =>
+        match r.readToEnd (r.data.length + 1) with
+        | .error e => .error e
+        | .ok (restB, _) =>
+          if !allAscii restB then .error .invalid
+          else match (splitWs (bytesToChars restB)).mapM parseF64 with
+            | none => .error .invalid
+            | some vals => if checkedSize shape = some vals.length then .ok (shape, vals) else .error .invalid
 
 /-! ## writers -/
 
